@@ -222,7 +222,8 @@ def r4(R, repo):
   POS_E, NEG_E = ('self._error', 'self._error is not None'), ('not self._error', 'self._error is None')
   tb = [n for n in c.nodes if n.kind == 'if' and astu.src(n.ast) in POS_B + NEG_B]
   te = [n for n in c.nodes if n.kind == 'if' and astu.src(n.ast) in POS_E + NEG_E]
-  R.require(len(tb) == 1 and len(te) == 1, '__next__: buffer / error tests not found')
+  R.require(len(tb) == 1 and len(te) >= 1, '__next__: buffer / error tests not found')
+  te = te[-1:]
 
   def holds(node, t, truth, pos):
     """node is reached only when the tested condition (in its positive reading) has the given truth value"""
@@ -231,9 +232,12 @@ def r4(R, repo):
   raises = [n for n in c.nodes if isinstance(n.stmt, ast.Raise)]
   rerr = [n for n in raises if astu.src(n.stmt.exc) == 'self._error']
   rstop = [n for n in raises if astu.raised_name(n.stmt) == 'StopIteration']
-  R.require(len(rerr) == 1 and len(rstop) == 1, '__next__: raise self._error / raise StopIteration not found')
-  R.check(holds(rerr[0], tb[0], False, POS_B) and holds(rerr[0], te[0], True, POS_E), key_of(nxt, 'error only after the buffer is drained'), (nxt, rerr[0].stmt), evidence=True, msg_fail=
-          'the source error must be raised only when no buffered item is left (items that preceded the error come first)')
+  R.require(len(rerr) >= 1 and len(rstop) == 1, '__next__: raise self._error / raise StopIteration not found')
+  tb_all = [n for n in c.nodes if n.kind == 'if' and astu.src(n.ast) in POS_B + NEG_B]
+  for r_ in rerr:
+    drained = any(holds(r_, t_, False, POS_B) for t_ in tb_all)
+    R.check(drained, key_of(nxt, 'error only after the buffer is drained'), (nxt, r_.stmt), evidence=True, msg_fail=
+            'the source error must be raised only when no buffered item is left (items that preceded the error come first): this `raise self._error` can run while items are still buffered')
   R.check(holds(rstop[0], tb[0], False, POS_B) and holds(rstop[0], te[0], False, POS_E), key_of(nxt, 'StopIteration only without items and without error'), (nxt, rstop[0].stmt), evidence=True, msg_fail=
           'StopIteration must be raised only when the buffer is empty and no error was recorded')
   waits = [x for x in astu.func_calls(nxt) if astu.call_tail(x) == 'wait_for']
